@@ -261,6 +261,87 @@ pub fn cases_for(prop: &str, tier: &str, seed: u64, shard: (usize, usize)) -> (V
                 cases.push(c);
             }
         }
+        "C14" => {
+            let n = budget(tier, 1300, 30000) / shard.1;
+            for i in 0..n {
+                let si_idx = rng.below(pool.len() - 1);
+                let si = &pool[si_idx];
+                // valid, mutated and grammar-random documents
+                let gdoc: GDoc = match i % 4 {
+                    0 | 1 => crate::genvalid::VGen::new(rng.fork(), si, 2 + rng.below(3)).doc(),
+                    2 => {
+                        let base = crate::genvalid::VGen::new(rng.fork(), si, 2 + rng.below(3)).doc();
+                        let m = *rng.pick(crate::genvalid::MUTATIONS);
+                        crate::genvalid::mutate(&base, m, &mut rng, si).unwrap_or(base)
+                    }
+                    _ => Gen::new(rng.fork(), si, GenCfg::mostly_valid()).gen_doc(),
+                };
+                let kind = crate::rewrite::REWRITES[(i + shard.0) % crate::rewrite::REWRITES.len()];
+                let text = gdoc.print();
+                let mut extra = vec![format!("(kind {})", kind)];
+                if kind.starts_with("schema-") {
+                    match crate::rewrite::rewrite_schema(&si.doc, kind, &mut rng) {
+                        Some(s2) => extra.push(format!("(altschema {})", crate::sx::hex(format!("{}", s2).as_bytes()))),
+                        None => continue,
+                    }
+                } else if kind == "reparse" {
+                    match graphql_tools::parser::parse_query::<String>(&text) {
+                        Ok(d) => extra.push(format!("(altdoc {})", crate::sx::hex(format!("{}", d).as_bytes()))),
+                        Err(_) => continue,
+                    }
+                } else {
+                    match crate::rewrite::rewrite_doc(&gdoc, kind, &mut rng) {
+                        Some(g2) => extra.push(format!("(altdoc {})", crate::sx::hex(g2.print().as_bytes()))),
+                        None => continue,
+                    }
+                }
+                cases.push(Case { id: format!("rw{}x{}", shard.0, i), family: format!("rewrite:{}", kind), schema: si_idx, op: "rewrite".into(),
+                    doc: Some(text), extra, note: kind.to_string() });
+            }
+        }
+        "C17" => {
+            let n = budget(tier, 1200, 30000) / shard.1;
+            let mut tmp: Vec<Case> = vec![];
+            family_random_docs(&mut tmp, &pool, &mut rng, n, "transform", &format!("x{}x", shard.0), false);
+            for (i, mut c) in tmp.into_iter().enumerate() {
+                // identity transformer, one hook at a time, and combinations
+                let mask: u64 = match i % 5 {
+                    0 => 0,
+                    1 | 2 => 1 << rng.below(11),
+                    3 => rng.next() & 0x7FF,
+                    _ => 0x7FF,
+                };
+                let k = rng.range(1, 3) as u64;
+                let salt = rng.below(7) as u64;
+                c.note = format!("mask={}", mask);
+                c.extra = vec![format!("(probe {} {} {})", mask, k, salt)];
+                cases.push(c);
+            }
+            // every Keep/Replace pattern over lists of length <= 6: selection lists of n fields whose
+            // positions decide (k = 1 with the field hook = replace all; masks pick subsets through k/salt)
+            if shard.0 == 0 {
+                let minimal = pool.iter().position(|s| s.name == "minimal").unwrap();
+                for len in 0..=6usize {
+                    for pat in 0..(1u32 << len) {
+                        // one field per line; replaced fields are the ones given an argument zz: 0 and the value hook (k=1 on Int 0)
+                        let mut text = String::from("{\n");
+                        for j in 0..len {
+                            if pat & (1 << j) != 0 {
+                                text.push_str("  a(zz: 0)\n");
+                            } else {
+                                text.push_str("  a\n");
+                            }
+                        }
+                        if len == 0 {
+                            text.push_str("  b\n");
+                        }
+                        text.push_str("}\n");
+                        cases.push(Case { id: format!("pat{}-{}", len, pat), family: "keep-replace-patterns".into(), schema: minimal, op: "transform".into(),
+                            doc: Some(text), extra: vec!["(probe 512 1 0)".to_string()], note: "mask=512".into() });
+                    }
+                }
+            }
+        }
         "C18" => {
             // exhaustive per schema; one case per pool schema (knows_nothing included), shard 0 only
             let depth = if tier == "thorough" { 3 } else { 2 };
@@ -325,6 +406,11 @@ pub fn run_impl(c: &Case, si: &SchemaInfo, doc: Option<&q::Document>) -> Vec<Str
         "trace" => crate::op_trace::run_trace(&si.doc, doc.unwrap()),
         "strace" => crate::op_trace::run_strace(&si.doc),
         "collect" => crate::op_misc::run_collect(&si.doc, doc.unwrap()),
+        "transform" => {
+            let p: Vec<u64> = c.extra[0].trim_start_matches("(probe ").trim_end_matches(')').split_whitespace().map(|x| x.parse().unwrap()).collect();
+            crate::op_transform::run_transform(doc.unwrap(), p[0], p[1], p[2])
+        }
+        "rewrite" => run_rewrite(si, doc.unwrap(), &c.extra),
         "purity" => {
             // extra[0] = plan, extra[1..] = further documents of the history as (hist <hex text>)
             let mut docs = vec![doc.unwrap().clone()];
@@ -462,4 +548,59 @@ pub fn c03_cases(pool: &[SchemaInfo], rng: &mut Rng, tier: &str, shard: (usize, 
 pub fn values_sexp() -> String {
     let vals = crate::op_misc::value_pool();
     format!("(vals {})", vals.iter().map(crate::sx::value).collect::<Vec<_>>().join(" "))
+}
+
+pub fn unhex(h: &str) -> String {
+    let bytes: Vec<u8> = (0..h.len() / 2).map(|i| u8::from_str_radix(&h[2 * i..2 * i + 2], 16).unwrap_or(b'?')).collect();
+    String::from_utf8_lossy(&bytes).to_string()
+}
+
+/// are two documents equal up to positions?
+pub fn same_modulo_positions(a: &q::Document, b: &q::Document) -> bool {
+    // the S-expression with every position zeroed
+    fn strip(d: &q::Document) -> String {
+        let g = crate::shrink::from_document(d);
+        format!("{:?}", g)
+    }
+    strip(a) == strip(b)
+}
+
+fn verdict_line(tag: &str, errs: &[graphql_tools::validation::utils::ValidationError]) -> String {
+    // reporting rules in default-plan order
+    let rules: Vec<&str> = crate::op_validate::ALL_RULES.iter().cloned().filter(|r| errs.iter().any(|e| e.error_code == *r)).collect();
+    format!("{} {} | {}", tag, if errs.is_empty() { "accept" } else { "reject" }, rules.join(","))
+}
+
+/// C14: validate the original and the rewritten (document, schema) with the default plan
+pub fn run_rewrite(si: &SchemaInfo, doc: &q::Document, extra: &[String]) -> Vec<String> {
+    use graphql_tools::validation::validate::validate;
+    let kind = extra[0].trim_start_matches("(kind ").trim_end_matches(')').to_string();
+    let mut doc2 = doc.clone();
+    let mut schema2 = si.doc.clone();
+    for e in &extra[1..] {
+        if let Some(h) = e.strip_prefix("(altdoc ") {
+            match graphql_tools::parser::parse_query::<String>(&unhex(h.trim_end_matches(')'))) {
+                Ok(d) => doc2 = d.into_static(),
+                Err(_) => return vec!["SKIP unparsable".into()],
+            }
+        } else if let Some(h) = e.strip_prefix("(altschema ") {
+            match graphql_tools::parser::parse_schema::<String>(&unhex(h.trim_end_matches(')'))) {
+                Ok(d) => schema2 = d.into_static(),
+                Err(_) => return vec!["SKIP unparsable".into()],
+            }
+        }
+    }
+    if kind == "reparse" && !same_modulo_positions(doc, &doc2) {
+        return vec!["SKIP printer-not-faithful".into()];
+    }
+    let plan = crate::op_validate::plan_of(&crate::op_validate::ALL_RULES.iter().map(|x| x.to_string()).collect::<Vec<_>>());
+    let e1 = validate(&si.doc, doc, &plan);
+    let e2 = validate(&schema2, &doc2, &plan);
+    let a = verdict_line("A", &e1);
+    let b = verdict_line("B", &e2);
+    let same_verdict = e1.is_empty() == e2.is_empty();
+    let rules_relevant = !matches!(kind.as_str(), "wrap-inline" | "inline-spread");
+    let same_rules = a[2..] == b[2..];
+    vec![a, b, format!("VERDICT {}", if same_verdict { "same" } else { "DIFF" }),
+         format!("RULES {}", if !rules_relevant { "n/a" } else if same_rules { "same" } else { "DIFF" })]
 }
